@@ -17,5 +17,5 @@ func (e *ReturnParamNotFound) Error() string {
 // funcName 函数名称
 // index 返回值下标
 func NewReturnParamNotFoundError(funcName string, index int) error {
-	return &ArgNotFound{funcName: funcName, arg: index}
+	return &ReturnParamNotFound{funcName: funcName, arg: index}
 }
